@@ -248,6 +248,7 @@ TagConflict(p, l) ==
 \* cannot be listed.  No document containing both can be valid; what gfapy does then is not specified.
 WrongKindForPlaceholder(st, l) ==
   Named(l) /\ ((l.name \in VirtSegIds(st) /\ l.rt # "S")
+               \/ l.name \in Mentions(l)          \* a line that mentions its own identifier
                \/ (l.name \in UnknownIds(st) /\ l.rt \notin {"S", "E", "G", "O", "U"}))
 
 AddDecided(st, l) ==
